@@ -60,8 +60,8 @@ HasMarshalPanic(d) ==
 
 GInit ==
   /\ sc = [op |-> [kind |-> "query", sels |-> <<>>, frags |-> <<>>], plan |-> <<>>, dirplan |-> <<>>]
-  /\ ref = [fwd |-> [d |-> Null, isnull |-> FALSE, errs |-> <<>>, pos |-> {}],
-            rev |-> [d |-> Null, isnull |-> FALSE, errs |-> <<>>, pos |-> {}], roots |-> <<>>]
+  /\ ref = [fwd |-> [d |-> Null, isnull |-> FALSE, errs |-> <<>>, pos |-> {}, dinfo |-> {}],
+            rev |-> [d |-> Null, isnull |-> FALSE, errs |-> <<>>, pos |-> {}, dinfo |-> {}], roots |-> <<>>]
   /\ started = {} /\ ended = {} /\ errs = <<>> /\ recovers = 0 /\ phase = "idle"
 
 Load(s) ==
